@@ -49,7 +49,7 @@ def cases(tier):
 
     bind_repo()
     out = []
-    for b in e1.BASES:
+    for b in [x for x in e1.BASES if x != "Polyhedron/scrambled"]:  # (before sort_faces its faces are not boundary cycles)
         out.append({"base": b, "prefix": []})
         for op in e1.discover_ops(e1.make_base(b)):
             if op.endswith("=neg"):
